@@ -224,6 +224,78 @@ def c13(cfg):
     return rec
 
 
+def c13_sympy(cfg):
+    """Merge / permute / scale relations for a sympy-matrix Hamiltonian with symbols (library Taylor-expands it)."""
+    import sympy
+    from pymablock import block_diagonalize
+
+    from .. import sympy_bridge as sb
+
+    rec = Rec("C13", cfg)
+    herm = cfg.get("hermitian", True)
+    B0 = _base(dict(cfg, terms=[[1]], carrier="C"))
+    N, E = B0.N, B0.E
+    A, Bm, Cm = (_mat(nm, N, herm) for nm in ("a_", "b_", "c_"))
+    x, y = sympy.Symbol("l0", real=True), sympy.Symbol("l1", real=True)
+    H0 = sympy.diag(*[sb.to_sympy(e) for e in E])
+    As, Bs, Cs = sb.matrix_to_sympy(A), sb.matrix_to_sympy(Bm), sb.matrix_to_sympy(Cm)
+    mo = cfg["max_order"]
+    idx = list(B0.blockof)
+    tr = sb.Translator()
+    kind = cfg["relation"]
+    H2 = H0 + x * As + y * Bs + x * y * Cs + x**2 * y * As
+    out2 = block_diagonalize(H2, subspace_indices=idx, symbols=[x, y], hermitian=herm)
+    if kind == "merge":
+        H1 = H0 + x * (As + Bs) + x**2 * Cs + x**3 * As
+        out1 = block_diagonalize(H1, subspace_indices=idx, symbols=[x], hermitian=herm)
+    elif kind == "permute":
+        H1 = H2.subs({x: y, y: x}, simultaneous=True)
+        out1 = block_diagonalize(H1, subspace_indices=idx, symbols=[x, y], hermitian=herm)
+    else:
+        raise KeyError(kind)
+    from pymablock.series import one, zero
+
+    P = B0
+    P._tr, P._sym_pairs = tr, []
+    one_pt = {"l0": 1, "l1": 1}
+
+    def full(S, o):
+        M = P.full(S, o)
+        # the sympy-matrix format returns every element multiplied by its monomial: substitute l_k = 1
+        import z3
+
+        subs = [(symc.real("l0"), symc.R1), (symc.real("l1"), symc.R1)]
+        return np.vectorize(lambda v: SymC(z3.substitute(v.re, *subs), z3.substitute(v.im, *subs), v.den), otypes=[object])(M)
+
+    sigb = _sigbase(cfg) + ":sympy-matrix-format:" + kind
+    bad = set()
+    for n in range(mo + 1):
+        for w in range(3):
+            if w in bad:
+                continue
+            if kind == "merge":
+                lhs = full(out1[w], (n,))
+                rhs = None
+                for n1 in range(n + 1):
+                    t = full(out2[w], (n1, n - n1))
+                    rhs = t if rhs is None else rhs + t
+                items = [((n,), lhs, rhs)]
+            else:
+                items = [((n1, n - n1), full(out1[w], (n1, n - n1)), full(out2[w], (n - n1, n1))) for n1 in range(n + 1)]
+            for o, lhs, rhs in items:
+                v = rec.oblige(f"{NAMES[w]} order={o}", lhs, rhs, sig=sigb + ":" + NAMES[w],
+                               replay=lambda model: (True, {"note": "exact symbolic identity between two public-API runs on the same sympy input"}))
+                if v == "sat":
+                    bad.add(w)
+                if v != "structural":
+                    rec.nontrivial = True
+    from .. import solver
+
+    rec.guard("assumptions_sat", solver.assumptions_sat() == "sat")
+    rec.sample = {"config": cfg, "n_symbolic_reals": len(symc.CTX.vars)}
+    return rec
+
+
 # ------------------------------------------------------------------------------------------------
 # C15
 
@@ -472,13 +544,37 @@ def c12a(cfg):
                 calls = Pl.h_calls
                 bad_cone = [c for c in calls if not all(a <= b for a, b in zip(c[2:], n))]
                 dup = len(calls) - len(set(calls))
+                bad_idx = [c for c in calls if not (0 <= c[0] < len(sizes) and 0 <= c[1] < len(sizes))]
                 name = f"calllog {NAMES[w]}[{bi},{bj},{n}]"
-                if bad_def:
+                if bad_idx:
+                    rec.direct_violation(name, f"{sigb}:calllog-unnormalised-index", {"request": [bi, bj, *n], "calls": bad_idx[:5],
+                                         "note": "the user's eval was called with an un-normalised (negative) block index: the same element is evaluated under two names"})
+                elif bad_def:
                     rec.direct_violation(name, f"{sigb}:calllog-definition", {"evaluated_at_definition": bad_def[:5]})
                 elif bad_cone:
                     rec.direct_violation(name, f"{sigb}:calllog-cone", {"request": [bi, bj, *n], "outside_cone": bad_cone[:5]})
                 elif dup:
                     rec.direct_violation(name, f"{sigb}:calllog-repeat", {"request": [bi, bj, *n], "repeated": dup})
+                else:
+                    rec.discharged(name + f" ({len(calls)} evaluations)", "confirmed")
+    # list-valued order requests (numpy pairs several lists element-wise): only the cones of the paired orders may be evaluated
+    if npar == 2 and mo >= 2:
+        for w in range(3):
+            for lists in (([2, 0], [0, 2]), ([1, 0], [0, 1]), ([0, 2], [1, 0]), ([2, 1], [0, 0])):
+                pairs = [p for p in zip(*lists) if sum(p) <= mo]
+                if len(pairs) != len(lists[0]):
+                    continue
+                Pl = bd.Problem(dict(cfg, sizes=sizes, max_order=mo), E=E, classes=classes, terms_data=X)
+                series = Pl.run()
+                series[w][(0, 0, list(lists[0]), list(lists[1]))]
+                calls = Pl.h_calls
+                bad_cone = [c for c in calls if not any(all(a <= b for a, b in zip(c[2:], n)) for n in pairs)]
+                dup = len(calls) - len(set(calls))
+                name = f"calllog {NAMES[w]}[0,0,{lists[0]},{lists[1]}]"
+                if bad_cone:
+                    rec.direct_violation(name, f"{sigb}:calllog-cone-list-request", {"request": [list(x) for x in lists], "outside_cone": bad_cone[:5]})
+                elif dup:
+                    rec.direct_violation(name, f"{sigb}:calllog-repeat", {"request": [list(x) for x in lists], "repeated": dup})
                 else:
                     rec.discharged(name + f" ({len(calls)} evaluations)", "confirmed")
     from .. import solver
@@ -525,7 +621,12 @@ def configs_c13(tier):
         cfgs.append(dict(carrier="A", hermitian=True, sizes=[2, 1], spectrum=["0", "2", "1"], relation=r, max_order=3, fd=[0]))
         cfgs.append(dict(carrier="A", hermitian=True, sizes=[3], spectrum=["0", "1", "2"], relation=r, max_order=2,
                          fd={"0": [[0, 1, 0], [1, 0, 0], [0, 0, 0]]}))
-    return [("vf.props.relations", "c13", c) for c in cfgs]
+    jobs = [("vf.props.relations", "c13", c) for c in cfgs]
+    for herm in (True, False):
+        for sizes in ([1, 1], [1, 2]):
+            for rel in ("merge", "permute"):
+                jobs.append(("vf.props.relations", "c13_sympy", dict(sympy_format=True, hermitian=herm, sizes=sizes, spectrum=RAT_SPECTRA[sum(sizes)], relation=rel, max_order=3)))
+    return jobs
 
 
 def configs_c15(tier):
